@@ -190,7 +190,7 @@ class Site:
 PAGE_PATHS = ['/', '/index.html', '/a.html', '/b.html', '/d1/', '/d1/p1.html', '/d1/p2.html', '/d1/d2/', '/d1/d2/p3.html',
               '/d1/d2/p4.html', '/other/', '/other/q.html', '/d1/x%20y.html', '/UP/Case.html',
               '/d10/s.html', '/d1-old/t.html', '/other2/u.html', '/d1.html',
-              '/A.html', '/d1/P1.html', '/up/case.html']    # differ from others by letter case only: distinct URLs
+              '/A.html', '/d1/P1.html', '/up/case.html', '/caf%C3%A9/m.html']    # differ from others by letter case only: distinct URLs
 
 
 def gen_site(tape, nhosts=1, npages=6, with_requisites=True, with_redirects=True, start_in_subdir=False, foreign=False,
